@@ -9,7 +9,7 @@ CONSTANTS
   Udp = FALSE
   DefSched <- Sched_none
   DefLast = 39500000
-  IdleWait = 2000000000
+  IdleWait = 1
   MaxTime = 0
   TickSet = {}
   ToAddrs = {}
